@@ -149,7 +149,7 @@ func (u *Universe) sortOf(t types.Type) string {
 		name := "TP_" + sanitize(tp.Obj().Name())
 		if !u.tparams[name] {
 			u.tparams[name] = true
-			u.decls = append(u.decls, fmt.Sprintf("(declare-sort %s 0)", name))
+			u.dtDecls = append(u.dtDecls, fmt.Sprintf("(declare-sort %s 0)", name))
 		}
 		return name
 	}
